@@ -13,9 +13,9 @@ from vlib import gen_sig
 ID = "C07"
 LEVEL = "exploration"
 RULE = ("every grammatical signature over {pos-only, pos-or-kw, *args, kw-only, **kw} x "
-        "{default, no default} with <= 5 (quick) / 6 (thorough) parameters, as plain functions and as "
+        "{default, no default} (defaults truthy tuples, and None / 0 / '' / [] / False / () / 0.0 / {}) with <= 5 (quick) / 6 (thorough) parameters, as plain functions and as "
         "bound methods, times every call shape (0..n+2 positionals, every subset of nameable "
-        "parameters by keyword, 0-2 surplus keywords, a keyword repeating a positional-only name); "
+        "parameters by keyword, 0-2 surplus keywords sorting before / after the parameter names, a keyword repeating a positional-only name, methods also called with the bound instance itself as an argument); "
         "a case is one (signature, call shape, ignore list) that Python's Signature.bind accepts; "
         "distinct_nontrivial counts distinct (signature, call shape) pairs accepted by Python with "
         "at least one argument or default bound")
